@@ -583,6 +583,11 @@ type PyObjRef = *aPyObjRef
 // PyNewFunc creates a new python function.
 func (p Package) PyNewFunc(name string, sig *types.Signature, doInit bool) PyObjRef {
 	if v, ok := p.pyobjs[name]; ok {
+		if !types.Identical(v.raw.Type.(*types.Pointer).Elem(), sig) {
+			// another Go declaration bound to the same Python attribute: the same object, its own call shape
+			ty := &aType{v.Obj.ll, rawType{types.NewPointer(sig)}, vkPyFuncRef}
+			return &aPyObjRef{Expr{v.Obj.impl, ty}, v.Obj}
+		}
 		return v
 	}
 	prog := p.Prog
